@@ -366,6 +366,38 @@ def check_iter(F, rep, ity):
         cur = norm(an.read(st, off_lv))
         if cur not in (ADD(F_(me, "offset"), F_(R, nextf)), F_(me, "offset")):
             msgs.append("offset advances to %s, expected record start + %s" % (show(cur)[:160], nextf))
+        # the declared count: one unit spent per record; given up altogether (set to 0) only when the next link cannot be followed - the
+        # cursor would overflow, or the link is 0 (any other reason ends the iteration before records a forward layout may place later)
+        ci_ = [i for i, fd in enumerate(adt["variants"][0]["fields"]) if fd["name"] == "count"]
+        if ci_:
+            clv = (("M", T.param(1)), (("f", ci_[0], "count"),))
+            cinit = T.proj(T.deref(T.param(1)), ("f", ci_[0], "count"))
+            cfin = an.simp(an.read(st, clv), st.facts)
+            if cfin.op == "const" and cfin.args[1] == 0:
+                overflow = any(f[0] == "var" and f[2] == "None" and isinstance(f[1], Term) and f[1].op == "call" and "::checked_add" in f[1].args[0] for f in st.facts)
+                link0 = any(f[0] == "eq" and f[2] == 0 and isinstance(f[1], Term) and nextf in pp(f[1])[-40:] for f in st.facts) or \
+                    any(f[0] == "true" and isinstance(f[1], Term) and f[1].op == "bin" and f[1].args[0] == "Eq" and nextf in pp(f[1]) and "0_u" in pp(f[1]) for f in st.facts)
+                last = any(f[0] == "eq" and f[1] is cinit and f[2] == 1 for f in st.facts) or \
+                    an.truth(st.facts, T.bin("Eq", cinit, T.const("u64", 1), "u64")) is True
+                def same_cursor(f):
+                    # `offset (+) next == offset`: the link is 0 told through the cursor not moving
+                    if not (isinstance(f[1], Term) and f[1].op == "bin" and f[1].args[0] in ("Eq", "Ne") and (f[0] == "true") == (f[1].args[0] == "Eq")):
+                        return False
+                    for x, y in ((f[1].args[1], f[1].args[2]), (f[1].args[2], f[1].args[1])):
+                        if x.op == "payload" and x.args[1] == "Some" and x.args[0].op == "call" and "::checked_add" in x.args[0].args[0] and y in x.args[0].args[2]:
+                            return True
+                    return False
+                link0 = link0 or any(f[0] in ("true", "false") and same_cursor(f) for f in st.facts)
+                if not link0:
+                    # ... or through the new cursor not lying past the old one (`new_off > self.offset` is false)
+                    from ..prover import Prover as _Pv
+                    for f in st.facts:
+                        if f[0] == "var" and f[2] == "Some" and isinstance(f[1], Term) and f[1].op == "call" and "::checked_add" in f[1].args[0]:
+                            new_ = T.payload(f[1], "Some")
+                            if any(_Pv(an).le(new_, a_, st.facts) for a_ in f[1].args[2]):
+                                link0 = True
+                if not (overflow or link0 or last):
+                    msgs.append("the declared count is set to 0 although the next link (%s) is non-zero and the cursor did not overflow: later records are never reached" % nextf)
         rep.require(not msgs, "iterator", q, w, "item = parse(data @ offset), advance by %s%s" % (nextf, ", aux list at +%s with %s entries" % (aux[2], aux[1]) if aux else ""),
                     "%s: %s" % (q, "; ".join(msgs)))
     rep.require(n_some >= 1, "iterator", q + ":yields", w, "has yielding paths", "%s never yields" % q)
